@@ -8,7 +8,7 @@ from vlib import log, OUT, VERIF
 
 PROPS = {
     # id: (stages, human summary of the deciding method)
-    "C01": (["hist_random", "mc_quick"], "TLC trace validation of SameItemsSameView / SyncReaches on recorded histories"),
+    "C01": (["hist_random", "mc_quick", "mc_deep"], "TLC trace validation of SameItemsSameView / SyncReaches on recorded histories"),
     "C02": (["hist_random", "mc_quick"], "TLC trace validation of AppliedComplete / RefreshApplies / RefreshEqualsReload"),
     "C03": (["hist_random", "mc_quick"], "TLC trace validation of Durable (fresh replica after every commit)"),
     "C04": (["hist_random", "mc_quick"], "TLC trace validation of Exact / Weak / Idempotent / EmptyCommit"),
@@ -32,9 +32,9 @@ PROPS = {
 
 # additional stages of the thorough tier
 THOROUGH = {
-    "C01": ["mc_core", "mc_three", "mc_two_arrays"], "C02": ["mc_core", "mc_cache"], "C03": ["mc_crash"], "C04": ["mc_core", "mc_two_arrays"],
+    "C01": ["mc_core", "mc_three", "mc_two_arrays", "mc_deep"], "C02": ["mc_core", "mc_cache"], "C03": ["mc_crash", "mc_deep"], "C04": ["mc_core", "mc_two_arrays"],
     "C05": ["mc_core", "selftest_binding"], "C06": ["mc_core", "mc_two_arrays"], "C07": ["mc_resolve"], "C08": ["mc_resolve", "mc_travel", "mc_objapi"],
-    "C09": ["mc_crash"], "C10": ["mc_damage"], "C11": ["mc_crash"], "C12": ["mc_resolve", "specmutants"], "C13": ["mc_core", "mc_three"],
+    "C09": ["mc_crash", "mc_deep"], "C10": ["mc_damage"], "C11": ["mc_crash"], "C12": ["mc_resolve", "specmutants"], "C13": ["mc_core", "mc_three", "mc_deep"],
     "C14": ["mc_travel"], "C15": ["mc_resolve"], "C16": [], "C17": [], "C18": [], "C19": [],
 }
 
@@ -143,26 +143,41 @@ def tryall_alphabet():
     return ops
 
 
-def mc_stage(cfgname, quick_sample, thorough_sample, tryall_quick, tryall_thorough, workers=12):
+def mc_stage(cfgname, quick_sample, thorough_sample, tryall_quick, tryall_thorough, workers=12, simulate=None):
+    """simulate=(traces per worker quick, thorough, depth): random deep behaviours (tlc -simulate) instead of BFS."""
     def run(tier, seed, d):
         import random, sched as schedmod, re
         os.makedirs(d, exist_ok=True)
         base = open(os.path.join(vlib.SPEC, "mc", cfgname)).read()
         cfg = os.path.join(d, "emit.cfg")
         open(cfg, "w").write(base.replace("INVARIANTS", "INVARIANTS\n  EmitSched", 1))
+        extra = []
+        if simulate:
+            extra = ["-simulate", "num=%d" % (simulate[0] if tier == "quick" else simulate[1]), "-depth", str(simulate[2]), "-seed", str(seed)]
         rc, out = vlib.run_tlc(os.path.join(vlib.SPEC, "MeldaMC.tla"), cfg, workers=workers, xmx="12g",
-                               timeout=3000 if tier == "quick" else 14000, queue_deque=False)
-        if "No error has been found" not in out:
+                               timeout=3000 if tier == "quick" else 14000, queue_deque=False, extra=extra)
+        passed = ("No error has been found" in out) if not simulate else ("Error:" not in out and "Finished in" in out)
+        if not passed:
             tail = "\n".join(l for l in out.splitlines() if not l.startswith('<<"SCHED"'))[-3000:]
             raise vlib.ToolError("model checking of %s did not pass (a model-only result is never a VIOLATION):\n%s" % (cfgname, tail))
-        m = re.search(r"(\d+) states generated, (\d+) distinct states found", out)
-        generated, distinct = int(m.group(1)), int(m.group(2))
+        if simulate:
+            m = re.search(r"The number of states generated: (\d+)", out)
+            generated, distinct = int(m.group(1)), 0
+            tr = re.findall(r"(\d+) traces generated", out)
+        else:
+            m = re.search(r"(\d+) states generated, (\d+) distinct states found", out)
+            generated, distinct = int(m.group(1)), int(m.group(2))
         depth = re.search(r"depth of the complete state graph search is (\d+)", out)
         scheds = list(schedmod.parse_tlc_output(out))
         maxi = schedmod.maximal(scheds)
         rnd = random.Random(seed)
         rnd.shuffle(maxi)
         n = quick_sample if tier == "quick" else thorough_sample
+        if simulate:    # half of the sample: the longest behaviours; the rest: random depths
+            maxi.sort(key=lambda sc: -len(sc))
+            rest = maxi[n // 2:]
+            rnd.shuffle(rest)
+            maxi = maxi[:n // 2] + rest
         chosen = maxi[:n]
         nt = tryall_quick if tier == "quick" else tryall_thorough
         specs = os.path.join(d, "specs.ndjson")
@@ -184,6 +199,9 @@ def mc_stage(cfgname, quick_sample, thorough_sample, tryall_quick, tryall_thorou
         res["model"] = {"config": cfgname, "states_generated": generated, "distinct_states": distinct,
                         "depth": int(depth.group(1)) if depth else 0, "schedules": len(scheds), "maximal": len(maxi),
                         "replayed": len(chosen), "tryall_states": min(nt, len(chosen)), "tryall_ops": len(alphabet)}
+        if simulate:
+            res["model"]["mode"] = "simulation (random behaviours of depth %d; every invariant and action property checked on every state generated)" % simulate[2]
+            res["model"]["behaviours"] = int(tr[-1]) if tr else 0
         res["samples"] = [{"model_schedule": schedmod.concretise(sc)} for sc in chosen[:2]]
         return res
     return run
@@ -492,6 +510,7 @@ STAGES = {"hist_random": st_hist_random, "fn_merge": fn_stage("merge"), "fn_diff
           "mc_three": mc_stage("MC_three.cfg", 300, 3000, 0, 100, workers=14),
           "mc_objapi": mc_stage("MC_objapi.cfg", 200, 2000, 0, 50, workers=14),
           "mc_cache": mc_stage("MC_cache.cfg", 200, 3000, 0, 50, workers=14),
+          "mc_deep": mc_stage("SIM_deep.cfg", 100, 2000, 0, 50, workers=14, simulate=(4, 60, 30)),
           "mc_chain": st_mc_chain, "selftest_binding": st_selftest_binding, "specmutants": st_specmutants,
           "kv": st_kv, "multi_config": multi_stage("config"), "multi_backend": multi_stage("backend")}
 
